@@ -61,10 +61,11 @@ C15Doc(p, cfg, exp, others) ==
     Doc("md", None, IF cfg \in {"docdef", "decoy", "both", "bothdecoy"} THEN 7 ELSE None, "no",
         [x \in 1..3 |-> IF x = p
             THEN SkipperTc(Ids[1][x], CASE cfg = "def" -> 80 [] cfg = "docdef" -> 7 [] cfg = "inline" -> 9 [] cfg = "decoy" -> 80
-                                        [] cfg = "both" -> 9 [] cfg = "bothdecoy" -> 7,      \* document default 7 AND inline 9: inline wins
-                           exp, IF cfg \in {"inline", "both", "bothdecoy"} THEN 9 ELSE None)
+                                        [] cfg = "both" -> 9 [] cfg = "bothdecoy" -> 7       \* document default 7 AND inline 9: inline wins
+                                        [] cfg = "max" -> 255 [] cfg = "maxdecoy" -> 80,     \* the largest exit code as skip code
+                           exp, CASE cfg \in {"inline", "both", "bothdecoy"} -> 9 [] cfg \in {"max", "maxdecoy"} -> 255 [] OTHER -> None)
             ELSE Kind(others[x], Ids[1][x])])
-C15Docs(u) == {C15Doc(p, cfg, exp, others) : p \in 0..3, cfg \in {"def", "docdef", "inline", "decoy", "both", "bothdecoy"},
+C15Docs(u) == {C15Doc(p, cfg, exp, others) : p \in 0..3, cfg \in {"def", "docdef", "inline", "decoy", "both", "bothdecoy", "max", "maxdecoy"},
                                           exp \in {None, 3, 80}, others \in [1..3 -> {"pass", "failout", "failcode"}]}
 Second(name) == Md(<<Kind(name, Ids[2][1])>>)
 ScenC15(u) == {Plain(<<dc>>) : dc \in C15Docs(0)}
@@ -118,6 +119,12 @@ ScenC20(u) == {Run(<<d1>>, None, pre, app, via, FALSE) : d1 \in MdDocsOf(1), pre
                      d2 \in {Md(MkTests(2, <<"failout">>)), Cram(MkCram(2, <<"failout">>))}, f \in {"missing", "nomatch"}, n1 \in {"pass", "failout"}}
            \cup {Run(<<[d1 EXCEPT !.fault = "nomatch"]>>, None, <<>>, <<>>, "cli", FALSE) : d1 \in {Md(MkTests(1, <<"failout">>))}}
 
+\* one script per document: a command that ends the shell with a code other than the skip code (`exit 3`)
+ScriptExit(u) ==
+    {Plain(<<Cram([x \in 1..3 |-> IF x = p THEN Tc(Ids[1][x], "exitscript", 3, 0, None, "stdout", "combined", "match", None, FALSE, None)
+                                   ELSE CramKind(n, Ids[1][x])])>> \o rest) : p \in 1..3, n \in {"pass", "failout"}, rest \in {<<>>, <<Md(MkTests(2, <<"pass">>))>>}}
+    \cup {[Plain(<<Combined(Md([x \in 1..3 |-> IF x = p THEN Tc(Ids[1][x], "exitscript", 3, 0, None, "stdout", "stdout", "match", None, FALSE, None)
+                                              ELSE Kind("pass", Ids[1][x])]))>>) EXCEPT !.compat = TRUE] : p \in 1..3}
 \* prepended / appended test cases together with a test case that runs into its limit (results must stay aligned)
 SharedAndTimeout(u) ==
     {Run(<<Doc("md", tfm, None, "no", <<Kind(n1, "d1t1"), Tc("d1t2", "exit", 0, 3, None, "none", "stdout", "none", t, FALSE, None), Kind("pass", "d1t3")>>)>>,
@@ -144,7 +151,7 @@ DetachedAndCut(cuts) ==
                           <<Kind(n1, "d1t1"), Kind("det", "d1t2"), CutTc(x, "d1t3")>>} : x \in cuts, n1 \in {"pass", "failout"}}}
 Scenarios == CASE Focus = "C05" -> ScenC05(0) \cup SharedAndTimeout(0) \cup DetachedAndCut({"slow", "sig_noexp", "failcode"}) \cup SharedPlain(0)
                [] Focus = "C14" -> ScenC14(0) \cup DetachedAndCut({"slow"}) \cup LimitAndShared(0) [] Focus = "C15" -> ScenC15(0) \cup DetachedAndCut({"skip80", "slow"}) \cup C15Compat(0)
-               [] Focus = "C20" -> ScenC20(0) \cup SharedAndTimeout(0) \cup DetachedAndCut({"slow", "sig_noexp", "skip80", "failout"})
+               [] Focus = "C20" -> ScenC20(0) \cup SharedAndTimeout(0) \cup DetachedAndCut({"slow", "sig_noexp", "skip80", "failout"}) \cup ScriptExit(0)
 
 Init == /\ sc \in Scenarios
         /\ d = 1 /\ k = 1 /\ clock = 0 /\ lim = None /\ isGlobal = FALSE /\ status = "-"
